@@ -29,7 +29,12 @@ class ImplWorld:
         self.prog0, self.user0 = emdfile._PROGRAM_NAME, emdfile._USER_NAME
 
     def path(self, p):
-        return os.path.join(self.dir, p + ".h5")
+        # some histories pass every path as a pathlib.Path: the package accepts both, and must treat them alike
+        q = os.path.join(self.dir, p + ".h5")
+        if self.case.get("pathlib"):
+            import pathlib
+            return pathlib.Path(q)
+        return q
 
     def src_obj(self, step):
         sid = step["src"]
